@@ -1,4 +1,5 @@
 import Copia.Gen.LoopsWire
+import Copia.Lemmas.GenEqLoops2
 /-!
 # `wire.rs::read_frame`, as translated from the source on this run, is one round of the model's `serveLoop`
 -/
@@ -50,5 +51,274 @@ theorem serveLoop_step (hash : Bytes → H) (short : H → List Char) (decode : 
       · simp only [h1, h2, h3, if_true, if_false]
       · simp only [h1, h2, h3, if_false]
         cases decode ((inp.drop 4).take (be32 (inp.take 4))) <;> rfl
+
+/-! ## `serve.rs::serve`: the prologue and the dispatch loop -/
+
+/-- state of the translated loop: early return, unread input, tree, replies, reserved buffers, "ended by itself" -/
+abbrev SrvSt (H : Type) := Option (Option (Session H)) × Bytes × HTree × List (Reply H) × List Nat × Bool
+
+/-- what the translated loop does with the outcome of one handler call -/
+def afterHandle (s : SrvSt H) (a : Nat) (rest : Bytes) (st : Step H) : ForInStep (SrvSt H) :=
+  if st.fatal = true then
+    ForInStep.done (some (some { replies := s.2.2.2.1, tree := s.2.2.1, exit := Exit.ioError, allocs := s.2.2.2.2.1 ++ [a] }),
+      rest, s.2.2.1, s.2.2.2.1, s.2.2.2.2.1 ++ [a], s.2.2.2.2.2)
+  else
+    match st.reply with
+    | some r => ForInStep.yield (none, rest.drop st.consumed, st.tree, s.2.2.2.1 ++ [r], s.2.2.2.2.1 ++ [a], s.2.2.2.2.2)
+    | none => ForInStep.yield (none, rest.drop st.consumed, st.tree, s.2.2.2.1, s.2.2.2.2.1 ++ [a], s.2.2.2.2.2)
+
+def serveStep (hash : Bytes → H) (short : H → List Char) (decode : Bytes → Option (Req H)) (s : SrvSt H) : ForInStep (SrvSt H) :=
+  match Copia.Gen.Loops.readFrame decode s.2.1 with
+  | FrameRes.eof => ForInStep.done (none, s.2.1, s.2.2.1, s.2.2.2.1, s.2.2.2.2.1, true)
+  | FrameRes.tooLarge =>
+    ForInStep.done (some (some { replies := s.2.2.2.1, tree := s.2.2.1, exit := Exit.frameTooLarge, allocs := s.2.2.2.2.1 }),
+      s.2.1, s.2.2.1, s.2.2.2.1, s.2.2.2.2.1, s.2.2.2.2.2)
+  | FrameRes.short a =>
+    ForInStep.done (some (some { replies := s.2.2.2.1, tree := s.2.2.1, exit := Exit.ioError, allocs := s.2.2.2.2.1 ++ [a] }),
+      s.2.1, s.2.2.1, s.2.2.2.1, s.2.2.2.2.1, s.2.2.2.2.2)
+  | FrameRes.badBody a =>
+    ForInStep.done (some (some { replies := s.2.2.2.1, tree := s.2.2.1, exit := Exit.badBody, allocs := s.2.2.2.2.1 ++ [a] }),
+      s.2.1, s.2.2.1, s.2.2.2.1, s.2.2.2.2.1, s.2.2.2.2.2)
+  | FrameRes.frame req a rest =>
+    match req with
+    | Req.hello _ => ForInStep.yield (none, rest, s.2.2.1, s.2.2.2.1 ++ [Reply.hello Copia.Gen.wireVersion], s.2.2.2.2.1 ++ [a], s.2.2.2.2.2)
+    | Req.list =>
+      ForInStep.yield (none, rest, s.2.2.1,
+        s.2.2.2.1 ++ [Reply.fingerprints (List.map (fun e => (e.fst, hash e.snd))
+          (List.filter (fun e => decide (e.fst.head? ≠ some ".copia".toList)) s.2.2.1))],
+        s.2.2.2.2.1 ++ [a], s.2.2.2.2.2)
+    | Req.get path => afterHandle s a rest (handle hash short s.2.2.1 (Req.get path) rest)
+    | Req.put path expected len h => afterHandle s a rest (handle hash short s.2.2.1 (Req.put path expected len h) rest)
+    | Req.delete path expected => afterHandle s a rest (handle hash short s.2.2.1 (Req.delete path expected) rest)
+    | Req.bye => ForInStep.done (none, rest, s.2.2.1, s.2.2.2.1, s.2.2.2.2.1 ++ [a], true)
+
+theorem serveStep_def (hash : Bytes → H) (short : H → List Char) (decode : Bytes → Option (Req H)) (s : SrvSt H) :
+    serveStep hash short decode s =
+      (match Copia.Gen.Loops.readFrame decode s.2.1 with
+  | FrameRes.eof => ForInStep.done (none, s.2.1, s.2.2.1, s.2.2.2.1, s.2.2.2.2.1, true)
+  | FrameRes.tooLarge =>
+    ForInStep.done (some (some { replies := s.2.2.2.1, tree := s.2.2.1, exit := Exit.frameTooLarge, allocs := s.2.2.2.2.1 }),
+      s.2.1, s.2.2.1, s.2.2.2.1, s.2.2.2.2.1, s.2.2.2.2.2)
+  | FrameRes.short a =>
+    ForInStep.done (some (some { replies := s.2.2.2.1, tree := s.2.2.1, exit := Exit.ioError, allocs := s.2.2.2.2.1 ++ [a] }),
+      s.2.1, s.2.2.1, s.2.2.2.1, s.2.2.2.2.1, s.2.2.2.2.2)
+  | FrameRes.badBody a =>
+    ForInStep.done (some (some { replies := s.2.2.2.1, tree := s.2.2.1, exit := Exit.badBody, allocs := s.2.2.2.2.1 ++ [a] }),
+      s.2.1, s.2.2.1, s.2.2.2.1, s.2.2.2.2.1, s.2.2.2.2.2)
+  | FrameRes.frame req a rest =>
+    match req with
+    | Req.hello _ => ForInStep.yield (none, rest, s.2.2.1, s.2.2.2.1 ++ [Reply.hello Copia.Gen.wireVersion], s.2.2.2.2.1 ++ [a], s.2.2.2.2.2)
+    | Req.list =>
+      ForInStep.yield (none, rest, s.2.2.1,
+        s.2.2.2.1 ++ [Reply.fingerprints (List.map (fun e => (e.fst, hash e.snd))
+          (List.filter (fun e => decide (e.fst.head? ≠ some ".copia".toList)) s.2.2.1))],
+        s.2.2.2.2.1 ++ [a], s.2.2.2.2.2)
+    | Req.get path => afterHandle s a rest (handle hash short s.2.2.1 (Req.get path) rest)
+    | Req.put path expected len h => afterHandle s a rest (handle hash short s.2.2.1 (Req.put path expected len h) rest)
+    | Req.delete path expected => afterHandle s a rest (handle hash short s.2.2.1 (Req.delete path expected) rest)
+    | Req.bye => ForInStep.done (none, rest, s.2.2.1, s.2.2.2.1, s.2.2.2.2.1 ++ [a], true)) := rfl
+
+/-- what the translated function returns from the loop's final state -/
+def srvFinal (s : SrvSt H) : Option (Session H) :=
+  match s.1 with
+  | some r => r
+  | none => if (!s.2.2.2.2.2) = true then none
+            else some { replies := s.2.2.2.1, tree := s.2.2.1, exit := Exit.clean, allocs := s.2.2.2.2.1 }
+
+/-- a handler that is not `Bye` and did not fail fatally has written a reply -/
+theorem handle_replies (hash : Bytes → H) (short : H → List Char) (t : HTree) (req : Req H) (after : Bytes)
+    (hb : ∀ v, req ≠ Req.hello v) (hl : req ≠ Req.list) (hbye : req ≠ Req.bye)
+    (hf : (handle hash short t req after).fatal = false) : ((handle hash short t req after).reply).isSome = true := by
+  cases req with
+  | hello v => exact absurd rfl (hb v)
+  | list => exact absurd rfl hl
+  | bye => exact absurd rfl hbye
+  | get p =>
+    simp only [handle]
+    split
+    · rfl
+    · split <;> rfl
+  | put p e l hh =>
+    simp only [handle] at hf ⊢
+    split
+    · rfl
+    · rename_i d hs
+      simp only [hs] at hf
+      split
+      · rename_i hp; simp [hp] at hf
+      · split
+        · rfl
+        · split
+          · rfl
+          · split
+            · split <;> rfl
+            · rfl
+  | delete p e =>
+    simp only [handle]
+    split
+    · rfl
+    · split <;> rfl
+
+theorem readFrame_rest_shorter {R : Type} (decode : Bytes → Option R) (inp : Bytes) (req : R) (a : Nat) (rest : Bytes)
+    (h : Copia.Gen.Loops.readFrame decode inp = FrameRes.frame req a rest) : rest.length + 4 ≤ inp.length := by
+  rw [readFrame_eq] at h
+  by_cases h1 : inp.length < 4
+  · simp only [h1, if_true] at h; cases h
+  · by_cases h2 : be32 (inp.take 4) > Gen.maxFrame
+    · simp only [h1, h2, if_true, if_false] at h; cases h
+    · by_cases h3 : (inp.drop 4).length < be32 (inp.take 4)
+      · simp only [h1, h2, h3, if_true, if_false] at h; cases h
+      · simp only [h1, h2, h3, if_false] at h
+        cases hd : decode ((inp.drop 4).take (be32 (inp.take 4))) with
+        | none => rw [hd] at h; cases h
+        | some r =>
+          rw [hd] at h
+          injection h with _ _ h3'
+          subst h3'
+          simp only [List.length_drop]
+          omega
+
+/-- the translated dispatch loop, run from any point of a session with fuel for the bytes still unread, ends where the
+model's `serveLoop` ends (the model keeps its two accumulators reversed) -/
+theorem serve_loop_eq (hash : Bytes → H) (short : H → List Char) (decode : Bytes → Option (Req H)) :
+    ∀ (fuel : Nat) (inp : Bytes) (t : HTree) (rs : List (Reply H)) (al : List Nat), inp.length < fuel →
+      srvFinal (iter (serveStep hash short decode) fuel (none, inp, t, rs.reverse, al.reverse, false)) =
+        some (serveLoop hash short decode fuel inp t rs al) := by
+  intro fuel
+  induction fuel with
+  | zero => intro inp t rs al h; omega
+  | succ k ih =>
+    intro inp t rs al hlen
+    rw [iter, serveLoop_step, serveStep_def]
+    dsimp only
+    cases hr : Copia.Gen.Loops.readFrame decode inp with
+    | eof => simp [srvFinal]
+    | tooLarge => simp [srvFinal]
+    | short a => simp [srvFinal]
+    | badBody a => simp [srvFinal]
+    | frame req a rest =>
+      have hrest := readFrame_rest_shorter decode inp req a rest hr
+      dsimp only
+      have hcons : ∀ (x : Nat) (l : List Nat), l.reverse ++ [x] = (x :: l).reverse := by intro x l; simp
+      have hconsr : ∀ (x : Reply H) (l : List (Reply H)), l.reverse ++ [x] = (x :: l).reverse := by intro x l; simp
+      cases req with
+      | hello v =>
+        dsimp only
+        rw [hcons, hconsr]
+        have := ih rest t (Reply.hello Gen.wireVersion :: rs) (a :: al) (by omega)
+        rw [this]
+        simp [handle]
+      | list =>
+        dsimp only
+        rw [hcons, hconsr]
+        have := ih rest t (Reply.fingerprints ((t.filter fun e => e.1.head? ≠ some ".copia".toList).map fun e => (e.1, hash e.2)) :: rs) (a :: al) (by omega)
+        rw [this]
+        simp [handle]
+      | bye => simp [srvFinal, handle]
+      | get p =>
+        dsimp only
+        unfold afterHandle
+        dsimp only
+        by_cases hf : (handle hash short t (Req.get p) rest).fatal = true
+        · simp [hf, srvFinal]
+        · have hf' : (handle hash short t (Req.get p) rest).fatal = false := by simpa using hf
+          have hs := handle_replies hash short t (Req.get p) rest (by intro v h; cases h) (by intro h; cases h) (by intro h; cases h) hf'
+          cases hrep : (handle hash short t (Req.get p) rest).reply with
+          | none => rw [hrep] at hs; cases hs
+          | some r =>
+            simp only [hf, if_false, Bool.false_eq_true]
+            rw [hcons, hconsr]
+            have := ih (rest.drop (handle hash short t (Req.get p) rest).consumed) (handle hash short t (Req.get p) rest).tree (r :: rs) (a :: al)
+              (by simp only [List.length_drop]; omega)
+            rw [this]
+      | put p e l hh =>
+        dsimp only
+        unfold afterHandle
+        dsimp only
+        by_cases hf : (handle hash short t (Req.put p e l hh) rest).fatal = true
+        · simp [hf, srvFinal]
+        · have hf' : (handle hash short t (Req.put p e l hh) rest).fatal = false := by simpa using hf
+          have hs := handle_replies hash short t (Req.put p e l hh) rest (by intro v h; cases h) (by intro h; cases h) (by intro h; cases h) hf'
+          cases hrep : (handle hash short t (Req.put p e l hh) rest).reply with
+          | none => rw [hrep] at hs; cases hs
+          | some r =>
+            simp only [hf, if_false, Bool.false_eq_true]
+            rw [hcons, hconsr]
+            have := ih (rest.drop (handle hash short t (Req.put p e l hh) rest).consumed) (handle hash short t (Req.put p e l hh) rest).tree (r :: rs) (a :: al)
+              (by simp only [List.length_drop]; omega)
+            rw [this]
+      | delete p e =>
+        dsimp only
+        unfold afterHandle
+        dsimp only
+        by_cases hf : (handle hash short t (Req.delete p e) rest).fatal = true
+        · simp [hf, srvFinal]
+        · have hf' : (handle hash short t (Req.delete p e) rest).fatal = false := by simpa using hf
+          have hs := handle_replies hash short t (Req.delete p e) rest (by intro v h; cases h) (by intro h; cases h) (by intro h; cases h) hf'
+          cases hrep : (handle hash short t (Req.delete p e) rest).reply with
+          | none => rw [hrep] at hs; cases hs
+          | some r =>
+            simp only [hf, if_false, Bool.false_eq_true]
+            rw [hcons, hconsr]
+            have := ih (rest.drop (handle hash short t (Req.delete p e) rest).consumed) (handle hash short t (Req.delete p e) rest).tree (r :: rs) (a :: al)
+              (by simp only [List.length_drop]; omega)
+            rw [this]
+
+theorem readMagic_eq (inp : Bytes) :
+    Copia.Gen.Loops.readMagic inp = if inp.length < 6 then none else some (inp.take 6 == Gen.wireMagic, inp.drop 6) := by
+  unfold Copia.Gen.Loops.readMagic
+  by_cases h : inp.length < 6 <;> simp [Id.run, h, pure]
+
+/-- **`serve.rs::serve` translated is the model's `serve`** — for every input and tree, with fuel for the input -/
+theorem serveGen_eq (hash : Bytes → H) (short : H → List Char) (decode : Bytes → Option (Req H)) (inp : Bytes) (t : HTree) :
+    Copia.Gen.Loops.serveGen hash short decode (inp.length + 1) inp t = some (serve hash short decode inp t) := by
+  unfold Copia.Gen.Loops.serveGen serve
+  simp only [Id.run, bind, pure]
+  rw [readMagic_eq]
+  by_cases h6 : inp.length < 6
+  · simp [h6]
+  · simp only [h6, if_false]
+    by_cases hm : inp.take 6 = Gen.wireMagic
+    · have hbeq : (inp.take 6 == Gen.wireMagic) = true := by simpa using hm
+      have e := forIn_replicate (serveStep hash short decode)
+      simp only [Id.run, bind, pure, hbeq, Bool.not_true, Bool.false_eq_true, if_false] at e ⊢
+      rw [e]
+      rotate_left
+      · intro u s
+        rw [serveStep_def]
+        cases Copia.Gen.Loops.readFrame decode s.2.1 with
+        | eof => rfl
+        | tooLarge => rfl
+        | short a => rfl
+        | badBody a => rfl
+        | frame req a rest =>
+          cases req with
+          | hello v => rfl
+          | list => rfl
+          | bye => rfl
+          | get p =>
+            simp only [afterHandle]
+            split
+            · rfl
+            · cases (handle hash short s.2.2.1 (Req.get p) rest).reply <;> rfl
+          | put p e l hh =>
+            simp only [afterHandle]
+            split
+            · rfl
+            · cases (handle hash short s.2.2.1 (Req.put p e l hh) rest).reply <;> rfl
+          | delete p e =>
+            simp only [afterHandle]
+            split
+            · rfl
+            · cases (handle hash short s.2.2.1 (Req.delete p e) rest).reply <;> rfl
+      have hl := serve_loop_eq hash short decode (inp.length + 1) (inp.drop 6) t [] []
+        (by simp only [List.length_drop]; omega)
+      simp only [List.reverse_nil] at hl
+      simp only [ne_eq, hm, not_true_eq_false, if_false]
+      rw [← hl]
+      unfold srvFinal
+      cases (iter (serveStep hash short decode) (inp.length + 1) (none, List.drop 6 inp, t, [], [], false)).1 <;> rfl
+    · have hbeq : (inp.take 6 == Gen.wireMagic) = false := by simpa using hm
+      simp [Id.run, hbeq, hm, pure]
 
 end Copia.GenEqLoops
